@@ -77,19 +77,28 @@ var c21Dims = []struct {
 	Name string
 	Vals []string
 }{
-	{"lead", []string{"none", "block", "block_tight", "line", "hash", "ws"}},
+	{"lead", []string{"none", "block", "block_tight", "line", "hash", "ws",
+		"block_slash", "block_slash_tight", "block_empty", "block_star", "block_open_in", "two_blocks",
+		"line_tab", "line_vt", "line_ff", "line_ctl", "line_empty", "hash_empty", "ver_empty", "bang_empty"}},
 	{"case", []string{"lower", "upper", "mixed"}},
-	{"gap", []string{"space", "nl", "tab", "comment", "comment_sp", "hint_tight", "hint_sp"}},
+	{"gap", []string{"space", "nl", "tab", "comment", "comment_sp", "hint_tight", "hint_sp", "vt", "comment_slash", "comment_star"}},
 	{"wrap", []string{"none", "bang", "ver"}},
 	{"trail", []string{"none", "block"}},
-	{"channel", []string{"query", "multi_after", "multi_before", "prepare", "prepare_param"}},
+	{"channel", []string{"query", "multi_after", "multi_before", "prepare", "prepare_param", "nosplit_after"}},
 	{"user", []string{"ro", "ro2"}},
 	{"tx", []string{"none", "begin", "ac0"}},
 }
 
-var c21LeadText = map[string]string{"none": "", "block": "/* c */ ", "block_tight": "/*c*/", "line": "-- c\n", "hash": "# c\n", "ws": "\n\t "}
+var c21LeadText = map[string]string{"none": "", "block": "/* c */ ", "block_tight": "/*c*/", "line": "-- c\n", "hash": "# c\n", "ws": "\n\t ",
+	// comment bodies that stress comment scanners: starting with '/', empty, '*', holding an opener; two comments
+	"block_slash": "/*/ trace */ ", "block_slash_tight": "/*/ trace */", "block_empty": "/**/", "block_star": "/***/ ", "block_open_in": "/* /* x */ ", "two_blocks": "/* a */ /* b */ ",
+	// `--` followed by each kind of white space / control character (MySQL: a comment), empty comments
+	"line_tab": "--\tc\n", "line_vt": "--\vc\n", "line_ff": "--\fc\n", "line_ctl": "--\x01c\n", "line_empty": "--\n", "hash_empty": "#\n",
+	// an EMPTY version comment in front of the statement
+	"ver_empty": "/*!40101 */ ", "bang_empty": "/*! */ "}
 var c21GapText = map[string]string{"space": " ", "nl": "\n", "tab": "\t", "comment": "/**/", "comment_sp": " /* g */ ",
-	"hint_tight": "/*+ SET_VAR(sort_buffer_size=262144) */", "hint_sp": " /*+ SET_VAR(sort_buffer_size=262144) */ "}
+	"hint_tight": "/*+ SET_VAR(sort_buffer_size=262144) */", "hint_sp": " /*+ SET_VAR(sort_buffer_size=262144) */ ",
+	"vt": "\v", "comment_slash": "/*/ g */", "comment_star": "/***/"}
 
 func c21DimVals(name string) []string {
 	for _, d := range c21Dims {
@@ -165,7 +174,7 @@ func (c c21Case) valid() bool {
 	if c.get("wrap") != "none" {
 		// no comment nested inside the version comment
 		switch c.get("gap") {
-		case "comment", "comment_sp", "hint_tight", "hint_sp":
+		case "comment", "comment_sp", "hint_tight", "hint_sp", "comment_slash", "comment_star":
 			return false
 		}
 	}
@@ -232,7 +241,17 @@ func c21NS(flipReadOnly, flopReadOnly bool) *models.Namespace {
 
 func c21NewHarness(t *testing.T) *c21Harness {
 	h := &c21Harness{t: t, sess: map[string]*rwSession{}}
-	h.r = rigStart(t, rigOpts{Namespaces: rwNSList(c21NS(false, true)), FakePools: true})
+	nosplit := rwNamespace("ns21n", true)
+	nosplit.SupportMultiQuery = false
+	h.r = rigStart(t, rigOpts{Namespaces: rwNSList(c21NS(false, true), nosplit), FakePools: true})
+	for _, u := range []string{"ro", "ro2", "rw"} {
+		s, err := rwOpen(h.r, "ns21n", u, "db")
+		if err != nil {
+			h.r.Close()
+			t.Fatalf("C21 dial ns21n %s: %v", u, err)
+		}
+		h.sess["n_"+u] = s
+	}
 	for _, u := range []string{"ro", "ro2", "rw", "flip", "flop"} {
 		s, err := rwOpen(h.r, "ns21", u, "db")
 		if err != nil {
@@ -254,6 +273,13 @@ func (h *c21Harness) close() {
 // run executes the case as `user` (the case's own user unless overridden).
 func (h *c21Harness) run(c c21Case, user string) c21Result {
 	s := h.sess[user]
+	if c.get("channel") == "nosplit_after" {
+		// namespace without support_multi_query: the packet is not split, it is ONE statement
+		// text for the proxy although it holds a modifying statement after the control
+		if ns, ok := h.sess["n_"+user]; ok {
+			s = ns
+		}
+	}
 	var res c21Result
 	tx := c.get("tx")
 	switch tx {
@@ -288,6 +314,11 @@ func (h *c21Harness) run(c c21Case, user string) c21Result {
 				allowedGets = 1
 			}
 		}
+	case "nosplit_after":
+		rs, obs, err = s.Query(c21Control + "; " + c.text(false))
+		if err == nil && len(rs) > 0 {
+			res.ErrReply = rs[len(rs)-1].Err != nil
+		}
 	case "prepare":
 		rs, obs, err = s.PrepExec(c.text(false), nil)
 		if err == nil && len(rs) > 0 {
@@ -305,7 +336,7 @@ func (h *c21Harness) run(c c21Case, user string) c21Result {
 	res.Replies = rwReplyBrief(rs, err)
 	nctl := 0
 	for _, e := range obs.Execs {
-		if e.SQL == c21Control && nctl < allowedGets {
+		if strings.TrimSpace(e.SQL) == c21Control && nctl < allowedGets {
 			nctl++
 			continue
 		}
@@ -326,9 +357,9 @@ func (h *c21Harness) run(c c21Case, user string) c21Result {
 func TestVerif_C21(t *testing.T) {
 	rec := kit.Start("C21", "exploration",
 		"case = statement kind (20 modifying kinds: INSERT x5, REPLACE x2, UPDATE x2, DELETE x2, CREATE TABLE/INDEX, ALTER, DROP TABLE/INDEX, TRUNCATE x2, RENAME, LOAD DATA; 5 SELECT/SHOW controls) x decorations "+
-			"{lead comment/white space (6), keyword case (3), gap between first keyword and next token (7: blank, newline, tab, glued /**/, spaced comment, optimizer hint glued/spaced), /*! */ wrapper (3), trailing comment (2)} "+
-			"x channel {query, multi-statement piece after/before a control, prepare+execute, prepare+execute with parameters} x read-only user {with, without rw-split} x {no tx, BEGIN, autocommit=0}; plus configuration-change histories (online reload flips a connected user's rw_flag rw>ro, ro>rw>ro, rw>ro>rw>ro; every modifying kind x channel on the stale and on a fresh session); "+
-			"thorough enumerates the product (tx only on single-decoration cases); non-trivial = the same text sent by a read-write user reaches a master")
+			"{lead (20: comments with bodies /*/..*/, /**/, /***/, holding an opener, two comments, `--`+blank/tab/VT/FF/control byte, empty -- and # comments, EMPTY /*!40101 */ and /*! */ in front, white space), keyword case (3), gap between first keyword and next token (10: blank, newline, tab, VT, glued /**/ /*/..*/ /***/, spaced comment, optimizer hint glued/spaced), /*! */ wrapper (3), trailing comment (2)} "+
+			"x channel {query, multi-statement piece after/before a control, prepare+execute, prepare+execute with parameters, unsplit packet `control; statement` on a namespace without support_multi_query} x read-only user {with, without rw-split} x {no tx, BEGIN, autocommit=0}; plus configuration-change histories (online reload flips a connected user's rw_flag rw>ro, ro>rw>ro, rw>ro>rw>ro; every modifying kind x channel on the stale and on a fresh session); "+
+			"thorough enumerates lead x gap x wrapper x channel x user and case x trailer / transactions on single-decoration cases; configuration variants (user entries whose names differ by blanks/case; what Verify accepts decides) ; non-trivial = the same text sent by a read-write user reaches a master")
 	defer rec.Finish(t)
 	rec.Assume("decorations are semantically neutral for MySQL by construction; no comment is nested inside a /*! */ wrapper")
 	rec.Assume("SQL-level PREPARE/EXECUTE, CALL, WITH ... UPDATE/DELETE and SELECT ... INTO OUTFILE are outside the generated space")
@@ -479,6 +510,9 @@ func TestVerif_C21(t *testing.T) {
 				continue
 			}
 			for _, ch := range c21DimVals("channel") {
+				if ch == "nosplit_after" {
+					continue // the flipped users live in the namespace with multi-statement support
+				}
 				base := c21Case{Kind: k.Name, D: map[string]string{}}.with("channel", ch)
 				if base.valid() {
 					cases = append(cases, base)
@@ -518,6 +552,13 @@ func TestVerif_C21(t *testing.T) {
 					clause = "no-error-after-reload"
 				}
 				if clause == "" {
+					continue
+				}
+				if eval(c.with("user", "ro")).Clause != "" {
+					// the same statement also passes the check for a user that was read-only all
+					// along: a defect of the statement check (reported by the main enumeration
+					// under its own signature), not of the configuration change
+					rec.Count("reload.failures_not_due_to_reload", 1)
 					continue
 				}
 				w := c
@@ -586,6 +627,124 @@ func TestVerif_C21(t *testing.T) {
 		}
 	}
 
+	// ---- configuration variants: user lists whose entries have names differing only in
+	// surrounding blanks / letter case, or the same name twice with different flags. What
+	// models.Namespace.Verify ACCEPTS is loaded (online reload of a new namespace); then every
+	// entry configured read-only must be refused its modifying statements when a client logs in
+	// with that entry's (trimmed) name and password. Rejected configurations are only counted.
+	configPhase := func() {
+		if ioFail {
+			return
+		}
+		type entry struct {
+			name, pw string
+			ro       bool
+		}
+		variants := []struct {
+			name    string
+			entries []entry
+		}{
+			{"plain_ro", []entry{{"cfga", "pa1", true}}},
+			{"blank_padded_ro", []entry{{" cfgb ", "pb1", true}}},
+			{"ro_then_trailing_blank_rw", []entry{{"cfgc", "pc1", true}, {"cfgc ", "pc2", false}}},
+			{"rw_then_trailing_blank_ro", []entry{{"cfgd", "pd1", false}, {"cfgd ", "pd2", true}}},
+			{"ro_then_leading_blank_rw", []entry{{"cfge", "pe1", true}, {" cfge", "pe2", false}}},
+			{"ro_then_tab_rw", []entry{{"cfgf", "pf1", true}, {"cfgf\t", "pf2", false}}},
+			{"ro_then_newline_rw", []entry{{"cfgg", "pg1", true}, {"cfgg\n", "pg2", false}}},
+			{"ro_then_nbsp_rw", []entry{{"cfgh", "ph1", true}, {"cfgh\u00a0", "ph2", false}}},
+			{"blank_ro_then_rw", []entry{{"cfgi ", "pi1", true}, {"cfgi", "pi2", false}}},
+			{"both_blank_padded", []entry{{" cfgj", "pj1", true}, {"cfgj ", "pj2", false}}},
+			{"case_differs", []entry{{"cfgk", "pk1", true}, {"CFGK", "pk2", false}}},
+			{"same_name_twice", []entry{{"cfgl", "pl1", true}, {"cfgl", "pl2", false}}},
+			{"three_entries", []entry{{"cfgm", "pm1", true}, {"cfgm ", "pm2", false}, {"  cfgm", "pm3", true}}},
+			{"same_password_padded", []entry{{"cfgn", "pn1", true}, {"cfgn ", " pn1 ", false}}},
+		}
+		var cases []c21Case
+		for _, k := range c21Kinds {
+			if !k.Write {
+				continue
+			}
+			for _, ch := range []string{"query", "multi_after", "multi_before", "prepare", "prepare_param"} {
+				if c := (c21Case{Kind: k.Name, D: map[string]string{}}).with("channel", ch); c.valid() {
+					cases = append(cases, c)
+				}
+			}
+		}
+		for i, v := range variants {
+			cfg := rwNamespace(fmt.Sprintf("ns21c%d", i), true)
+			cfg.Users = nil
+			for _, e := range v.entries {
+				flag := models.ReadWrite
+				if e.ro {
+					flag = models.ReadOnly
+				}
+				cfg.Users = append(cfg.Users, &models.User{UserName: e.name, Password: e.pw, Namespace: cfg.Name, RWFlag: flag, RWSplit: models.NoReadWriteSplit})
+			}
+			rec.Eval(1)
+			if err := cfg.Verify(); err != nil {
+				rec.Count("config.rejected_by_verify", 1)
+				continue
+			}
+			rec.Count("config.accepted_by_verify", 1)
+			if err := h.r.Reload(cfg); err != nil {
+				rec.Count("config.reload_failed", 1)
+				continue
+			}
+			for ei, e := range v.entries {
+				user, pw := strings.TrimSpace(e.name), strings.TrimSpace(e.pw)
+				conn, err := h.r.Dial(user, pw, "db")
+				if err != nil {
+					rec.Count("config.login_refused", 1)
+					continue
+				}
+				sess := &rwSession{r: h.r, c: conn}
+				h.sess["cfg"] = sess
+				served := 0
+				for _, c := range cases {
+					res := h.run(c, "cfg")
+					if res.IOErr != "" {
+						rec.Inconclusive("config phase: client I/O error " + res.IOErr)
+						ioFail = true
+						break
+					}
+					if !e.ro {
+						if !res.ErrReply && res.Gets > 0 {
+							served++
+						}
+						continue
+					}
+					rec.Eval(1)
+					rec.Count("config.must_refuse_cases", 1)
+					rec.Nontrivial("config|" + v.name + fmt.Sprintf("|%d|", ei) + c.key())
+					clause := ""
+					switch {
+					case res.Gets > 0 || len(res.Execs) > 0:
+						clause = "backend-reached-config-variant"
+					case !res.ErrReply:
+						clause = "no-error-config-variant"
+					}
+					if clause != "" {
+						w := c
+						w.History, w.Session = "config:"+v.name, fmt.Sprintf("entry%d", ei)
+						w.Text = c.text(c.get("channel") == "prepare_param")
+						rec.Violation(fmt.Sprintf("C21/%s/%s/variant=%s,entry=%d", clause, c.kind().KW, v.name, ei),
+							fmt.Sprintf("configuration accepted by Verify with user entries %q: login %q with the password of entry %d (configured READ-ONLY), channel %s: %q -> replies [%s], backend gets %d on %v, execs %q",
+								fmt.Sprint(v.entries), user, ei, c.get("channel"), w.Text, res.Replies, res.Gets, res.Roles, res.Execs), w)
+					}
+				}
+				rec.Count("config.served_for_read_write_entries", int64(served))
+				delete(h.sess, "cfg")
+				sess.Close()
+				if ioFail {
+					return
+				}
+			}
+		}
+		if rec.CounterValue("config.must_refuse_cases") == 0 {
+			rec.Inconclusive("config phase: no read-only entry of an accepted configuration could log in")
+		}
+	}
+
 	if p := kit.ReplayPath(); p != "" {
 		var c c21Case
 		if err := kit.LoadReplay(p, &c); err != nil {
@@ -598,6 +757,7 @@ func TestVerif_C21(t *testing.T) {
 		if c.History != "" {
 			fmt.Printf("REPLAY reload history %s/%s: running the whole reload phase\n", c.History, c.Session)
 			reloadPhase()
+			configPhase()
 			rec.Nontrivial(c.key() + "#replay")
 			rec.Sample(c)
 			return
@@ -626,17 +786,32 @@ func TestVerif_C21(t *testing.T) {
 
 	if kit.Tier() == "thorough" {
 		for _, k := range c21Kinds {
+			// full product of lead x gap x wrapper x channel x user (lower case, no trailer) ...
 			for _, lead := range dimVals("lead") {
-				for _, cs := range dimVals("case") {
-					for _, gap := range dimVals("gap") {
-						for _, wrap := range dimVals("wrap") {
-							for _, trail := range dimVals("trail") {
-								for _, ch := range dimVals("channel") {
-									for _, u := range dimVals("user") {
-										c := c21Case{Kind: k.Name, D: map[string]string{}}
-										c = c.with("lead", lead).with("case", cs).with("gap", gap).with("wrap", wrap).with("trail", trail).with("channel", ch).with("user", u)
-										one(c)
-									}
+				for _, gap := range dimVals("gap") {
+					for _, wrap := range dimVals("wrap") {
+						for _, ch := range dimVals("channel") {
+							for _, u := range dimVals("user") {
+								c := c21Case{Kind: k.Name, D: map[string]string{}}
+								one(c.with("lead", lead).with("gap", gap).with("wrap", wrap).with("channel", ch).with("user", u))
+							}
+						}
+					}
+				}
+			}
+			// ... and keyword case x trailer on the undecorated statement and on every single decoration
+			for _, cs := range dimVals("case") {
+				for _, trail := range dimVals("trail") {
+					if cs == "lower" && trail == "none" {
+						continue
+					}
+					for _, ch := range dimVals("channel") {
+						for _, u := range dimVals("user") {
+							base := c21Case{Kind: k.Name, D: map[string]string{}}.with("case", cs).with("trail", trail).with("channel", ch).with("user", u)
+							one(base)
+							for _, d := range []string{"lead", "gap", "wrap"} {
+								for _, v := range dimVals(d)[1:] {
+									one(base.with(d, v))
 								}
 							}
 						}
@@ -691,6 +866,7 @@ func TestVerif_C21(t *testing.T) {
 		}
 	}
 	reloadPhase()
+	configPhase()
 	rec.Set("distinct_cases_evaluated", len(cache))
 	if rec.CounterValue("liveness.live") == 0 {
 		rec.Inconclusive("no modifying statement was live for a read-write user: the rig observed nothing")
